@@ -2,7 +2,7 @@
 EXTENDS SplineEval
 MCN == {2, 3, 4, 5, 6}
 MCGaps(n) == IF n <= 5 THEN {1, 2, 3} ELSE {1, 2}
-MCYs(n) == IF n <= 3 THEN {-3, -2, -1, 0, 1, 2, 3} ELSE IF n = 4 THEN {-3, -1, 0, 1, 3} ELSE {-2, 0, 3}
-MCOff == {-3, 0}
+MCYs(n) == IF n <= 3 THEN {-3, -2, -1, 0, 1, 2, 3} ELSE IF n = 4 THEN {-3, -1, 0, 2} ELSE IF n = 5 THEN {-2, 0, 3} ELSE {-2, 3}
+MCOff(n) == IF n <= 4 THEN {-3, 0} ELSE {0}
 MCLong == {40, 200}
 ====
